@@ -52,9 +52,12 @@ def tie(tag, module_path, funcs, tmpl_name, theorems, imports=""):
     path = os.path.join(d, tag + ".v")
     defs = {}
     untranslated = {}
-    for fn in funcs:
+    # funcs: names in module_path, or (module path, name) pairs for functions of other modules
+    where = [(f if isinstance(f, tuple) else (module_path, f)) for f in funcs]
+    funcs = [f for _, f in where]
+    for mod_, fn in where:
         try:
-            defs.update(translate_pylite.translate(os.path.join(core.REPO, module_path), [fn]))
+            defs.update(translate_pylite.translate(os.path.join(core.REPO, mod_), [fn]))
         except translate_pylite.Unsupported as exc:
             untranslated[fn] = str(exc)      # its theorems (and those that use it) will fail to compile
         except (OSError, SyntaxError) as exc:
@@ -87,7 +90,7 @@ def tie(tag, module_path, funcs, tmpl_name, theorems, imports=""):
                 failed.setdefault(t, "coqc failed outside the template sections: " + out[-500:])
             break
         why = "".join("translator failed closed on %s: %s; " % (f, m) for f, m in untranslated.items()
-                      if "src_" + f in sections[hit])
+                      if "src_" + f.replace(".", "_") in sections[hit])
         for t in re.findall(r"^\s*Theorem\s+(\w+)", sections[hit], re.M):
             failed.setdefault(t, "NOT re-proved: %scoqc failed in %s: %s" % (why, name, out[-500:]))
         sections[hit] = ""
@@ -166,3 +169,21 @@ def trend_obligations():
     `obligations = pylite_tie.trend_obligations` in harness/c03.py"""
     return tie("TrendSrc", os.path.join("verde", "trend.py"), TREND_FUNCS, "pylite_trend.v.tmpl",
                TREND_THEOREMS, TREND_IMPORTS)
+
+
+CV_FUNCS = [(os.path.join("verde", "base", "base_classes.py"), "BaseBlockCrossValidator.__init__"),
+            "BlockKFold.__init__", "BlockShuffleSplit.__init__"]
+CV_THEOREMS = ["src_BaseBlockCrossValidator_init_eq", "src_BlockKFold_init_eq", "src_BlockShuffleSplit_init_eq"]
+CV_IMPORTS = ("From Coq Require Import ZifyBool.\n"
+              "From Verde Require Import Model.CrossVal Proofs.PyLiteBridge.")
+
+
+def cv_obligations():
+    """argument validation of the blocked cross-validators' constructors (verde/model_selection.py,
+    verde/base/base_classes.py) against the rejections of Model/CrossVal.v"""
+    return tie("CVSrc", os.path.join("verde", "model_selection.py"), CV_FUNCS, "pylite_cv.v.tmpl",
+               CV_THEOREMS, CV_IMPORTS)
+
+
+def c11_obligations():
+    return utils_obligations() + cv_obligations()
